@@ -268,6 +268,9 @@ func init() {
 			// … and a witnessed time is never lost: the next commit of the process is dated above what it read (shared with C05)
 			checkClockRebuild(c)
 			checkReadIgnoresOwnClocks(c, "R3.7")
+			// the tie-break key is the id of the stored bytes (shared with C04); the compiled state follows the same order (shared with C10)
+			checkDeriveIdSites(c)
+			checkCompileKeepsOrder(c, "R10.1")
 			// what Commit stores keeps the staging order: packs are cut where the author changes, never regrouped (shared with C04)
 			checkAuthorSplit(c)
 			// the histories git-bug writes itself pass these refusals: the merge commit is dated after both branches were witnessed (shared with C01/C05)
@@ -303,6 +306,9 @@ func init() {
 			// a replica that must rebuild its clocks can still open a history with merges; the exchange goes to the remote that was named
 			checkClockWalkToRoot(c, "R1.6")
 			checkRemoteArgumentHonoured(c, "R1.7")
+			// what is exchanged is every namespace, and a merge leaves the tracking refs to fetch and push
+			checkOneRefspecPerNamespace(c, "R15.15")
+			checkMergeMovesLocalRefOnly(c, "R2.13")
 			c.Doc("R11.1", "per SubCache function: excerpts store ⇒ index write; delete ⇒ Index.Remove; reset ⇒ Index.Clear; and SubCache.write() on every path to a non-error exit")
 			checkExcerptIndexPairing(c)
 		})
